@@ -1,11 +1,30 @@
-from cacheprops import CACHE_TB, CACHE_ASSUMPTIONS
+from subprops import SUB_TB, SUB_ASSUMPTIONS, su_component
+from props_C04 import LTS_TB
+import facts
 
 ID = "C08"
 PROP = {
-    "unclaimed": True,
-    "modules": [], "theorems": [],
-    "components": [{"c": "su", "label": "su-c08", "gen_args": ["-profile", "c08"], "quick": {"n": 300}, "thorough": {"n": 3000, "seeds": 3}}],
+    "modules": ["Gnmi.Props.C08"],
+    "theorems": ["Gnmi.C08." + t for t in [
+        "writer_independent_of_senders", "writer_enabled_iff", "others_progress", "own_steps_invisible", "others_run_without",
+        "backlog_bound", "timer_armed_only_in_send", "expire_enabled_iff", "stalled_send_terminates", "ended_stays_silent",
+        "pending_dups_exact", "resume_newest_with_dups"]],
+    "pre": [facts.make_step(["subscribe.feed.calls", "coalesce.Insert.blocking", "subscribe.send.aclBeforeSend",
+                             "subscribe.timer.stoppedAtCreation", "subscribe.sender.loop"])],
+    "components": [su_component("c08", 300, 3000)],
     "monitor": "spec", "level": "proof",
-    "trusted_base": CACHE_TB, "assumptions": CACHE_ASSUMPTIONS,
-    "manifest": {"level_text": "", "level_note": "", "technique": ""},
+    "trusted_base": SUB_TB + LTS_TB, "assumptions": SUB_ASSUMPTIONS,
+    "manifest": {
+        "level_text": "Lean 4 theorems about the Subscribe protocol LTS over all interleavings: writer_independent_of_senders (no writer step has "
+                      "a guard on any sender or gate state; enabledness and effect on the cache and on other subscribers are invariant under "
+                      "blocking one subscriber's sender forever), others_progress, backlog_bound (queue length <= distinct pending handles + pending "
+                      "delete items + 1), timer_armed_only_in_send / stalled_send_terminates (expiry enabled exactly while a send is pending and "
+                      "ends the RPC with an error), resume_newest_with_dups (after a stall each pending handle is delivered once with its newest "
+                      "value and a dup count equal to the notifications coalesced into it). Partial: actual latencies and the Go scheduler are "
+                      "outside the model; tied to the code by facts (the feed callback only calls Queue.Insert, Insert never blocks, timer armed "
+                      "only around Send) and the su correspondence with gated in-memory streams (stalls, expiry with a shortened timeout, resumed "
+                      "subscribers: conserved insert counts and newest values compared with the model).",
+        "level_note": "Trusted: Lean kernel; the LTS as a description of the code (facts + gated-stream correspondence). Wall-clock behaviour is observed, not proved.",
+        "technique": "Lean 4 proof (LTS enabledness and invariants over all interleavings) + regenerated source facts + gated-stream correspondence on the real Subscribe server",
+    },
 }
